@@ -795,7 +795,12 @@ func (s *Entry) Println(args ...any) {
 		s.log1(AlwaysLevel, "")
 		return
 	}
-	s.log1(AlwaysLevel, args[0].(string), args[1:]...)
+	// the message may be any value: a non-string is formatted, not asserted
+	msg, ok := args[0].(string)
+	if !ok {
+		msg = fmt.Sprint(args[0])
+	}
+	s.log1(AlwaysLevel, msg, args[1:]...)
 } // Println implements Logger.
 
 //
